@@ -19,7 +19,9 @@ META = {
                  'coordinates': 'every triple with each coordinate in -1..max(extent,1) (inside and one step outside '
                                 'on every side), plus ids computed for every in-range triple',
                  'cell component': 'v = 100x+10y+z (distinguishes every cell)',
-                 'bystanders': 'three worlds of other shapes are built and used after the world under test'},
+                 'bystanders': 'three worlds of other shapes are built and used after the world under test',
+                 'wrap_env': [False, True], 'long axes': 'line 40000, (0,33000,0); thorough also (0,0,70000), 300x300, (2,33000,0)',
+                 'id calls': 'float coordinates first, then the same integers'},
     'bounds': {'quick': '64 + 5 + 16 shapes', 'thorough': '125 + 8 + 25 shapes'},
     'assumptions': ['a zero extent denotes a single layer at coordinate 0 (as the position table and the '
                     'neighbourhood code treat it)'],
@@ -37,19 +39,19 @@ def shapes(tier):
             yield ('grid', [w, h])
 
 
-def mk(model, kind, dims):
+def mk(model, kind, dims, wrap=False):
     if kind == 'discrete':
-        return Envs.DiscreteWorld(model, *dims)
+        return Envs.DiscreteWorld(model, *dims, wrap_env=wrap)
     if kind == 'line':
-        return Envs.LineWorld(model, dims[0])
-    return Envs.GridWorld(model, *dims)
+        return Envs.LineWorld(model, dims[0], wrap_env=wrap)
+    return Envs.GridWorld(model, *dims, wrap_env=wrap)
 
 
 def check_shape(case):
     reset_library()
     kind, dims = case['kind'], case['dims']
     model = Core.Model(seed=1)
-    world = mk(model, kind, dims)
+    world = mk(model, kind, dims, case.get('wrap', False))
     if case.get('bystanders', True):
         # other grid worlds of other shapes built (and used) afterwards in the same process must not disturb this one
         others = [Envs.GridWorld(Core.Model(seed=2), 3, 4), Envs.DiscreteWorld(Core.Model(seed=3), 2, 3, 2),
@@ -79,7 +81,13 @@ def check_shape(case):
                 inside = 0 <= x < ext[0] and 0 <= y < ext[1] and 0 <= z < ext[2]
                 c = {'xyz': [x, y, z]}
                 if inside:
+                    # the same coordinates as floats first (as a position component holds them): same number, and the
+                    # integer call afterwards must still give a plain integer usable as a row index
+                    fid = Envs.discrete_grid_pos_to_id(float(x), float(y), world.width, float(z), world.height)
                     cid = Envs.discrete_grid_pos_to_id(x, y, world.width, z, world.height)
+                    if fid != cid or type(cid) is not int:
+                        raise Violation(f'id of cell {x, y, z}: integer call gives {cid!r}, float call {fid!r}',
+                                        expected='the same number, an int for int coordinates', observed=[cid, fid])
                     if not (isinstance(cid, int) and 0 <= cid < ncells):
                         raise Violation(f'id of in-range cell {x, y, z} is {cid}, outside 0..{ncells - 1}',
                                         expected=f'0..{ncells - 1}', observed=cid)
@@ -116,12 +124,42 @@ def check_shape(case):
     return queries, (kind, tuple(dims), len(ids))
 
 
+def big_shape(case):
+    """One very long axis (beyond 2**15 cells): the bijection is checked on every cell, row lookups on every 251st cell
+    and the last ones (the row lookup costs a pandas access each)."""
+    reset_library()
+    kind, dims = case['kind'], case['dims']
+    world = mk(Core.Model(seed=1), kind, dims, False)
+    d3 = list(dims) + [0] * (3 - len(dims))
+    ext = [max(e, 1) for e in d3]
+    n = ext[0] * ext[1] * ext[2]
+    pos = world.cells['pos']
+    if len(pos) != n:
+        raise Violation('number of cells differs', expected=n, observed=len(pos))
+    seen = 0
+    for z in range(ext[2]):
+        for y in range(ext[1]):
+            for x in range(ext[0]):
+                cid = Envs.discrete_grid_pos_to_id(x, y, world.width, z, world.height)
+                if cid != seen or tuple(pos[cid]) != (x, y, z):
+                    raise Violation(f'cell {x, y, z} of shape {dims}: id {cid}, table row {tuple(pos[cid]) if 0 <= cid < n else None}',
+                                    expected=[seen, [x, y, z]], observed=cid)
+                seen += 1
+    narg = {'discrete': 3, 'line': 1, 'grid': 2}[kind]
+    for cid in list(range(0, n, 251)) + [n - 2, n - 1]:
+        p = tuple(pos[cid])
+        row = world.get_cell(*p[:narg])
+        if tuple(row['pos']) != p:
+            raise Violation(f'get_cell{p[:narg]} on shape {dims} returned the row of {tuple(row["pos"])}')
+    return n, (kind, tuple(dims), n)
+
+
 def chunk_fn(ctx, chunk):
     for case in chunk:
         ctx.traces += 1
         ctx.states += 1
         try:
-            q, out = hbfs._guard(check_shape, case)
+            q, out = hbfs._guard(big_shape if case['leg'] == 'big' else check_shape, case)
             ctx.transitions += q
             ctx.outcome(out)
         except Violation as v:
@@ -131,7 +169,11 @@ def chunk_fn(ctx, chunk):
 
 
 def run(ctx):
-    cases = [{'leg': 'shape', 'kind': k, 'dims': d} for k, d in shapes(ctx.tier)]
+    cases = [{'leg': 'shape', 'kind': k, 'dims': d, 'wrap': w} for k, d in shapes(ctx.tier) for w in (False, True)]
+    cases += [{'leg': 'big', 'kind': 'line', 'dims': [40000]}, {'leg': 'big', 'kind': 'discrete', 'dims': [0, 33000, 0]}]
+    if ctx.tier == 'thorough':
+        cases += [{'leg': 'big', 'kind': 'discrete', 'dims': [0, 0, 70000]}, {'leg': 'big', 'kind': 'grid', 'dims': [300, 300]},
+                  {'leg': 'big', 'kind': 'discrete', 'dims': [2, 33000, 0]}]
     par.pmap(ctx, chunk_fn, [cases[i::ctx.procs * 2] for i in range(ctx.procs * 2)], procs=ctx.procs)
     for c in (cases[0], cases[27], cases[-1]):
         ctx.sample(c)
@@ -139,4 +181,4 @@ def run(ctx):
 
 
 def replay(case):
-    hbfs._guard(check_shape, case)
+    hbfs._guard(big_shape if case['leg'] == 'big' else check_shape, case)
